@@ -579,6 +579,15 @@ func ruleT7r(c *Ctx) *RuleResult {
 		case *ssa.Call:
 			if g := x.Call.StaticCallee(); g != nil && g.Name() == "Close" {
 				closes = append(closes, x)
+			} else if g != nil && g.Blocks != nil && g.Signature.Recv() != nil && types.Identical(g.Signature.Recv().Type(), fn.Signature.Recv().Type()) {
+				// a helper of the file that reads the buffers (fixes the size of the last part)
+				allInstrs(g, func(y ssa.Instruction) {
+					if u, ok := y.(*ssa.UnOp); ok && u.Op == token.MUL {
+						if f, _ := fieldOfAddr(u.X); f == bufF {
+							reads = append(reads, x)
+						}
+					}
+				})
 			}
 		}
 	})
@@ -1042,7 +1051,7 @@ func ruleG11f(c *Ctx) *RuleResult {
 		key := fmt.Sprintf("populateMultivariantPlaylist|codecs-append#%d", n)
 		what := "a codec string is appended only when containsCodec(list, codec) is false, for that list and that string"
 		elems := variadicArgs(app.Call.Args[1])
-		conds := ifsOn(fn, func(v ssa.Value) bool {
+		conds := ifsOnV(fn, func(v ssa.Value) bool {
 			call, ok := v.(*ssa.Call)
 			if !ok || call.Call.StaticCallee() != cc {
 				return false
